@@ -13,11 +13,11 @@ CS_CFG_C = "users=3,tokens=2,fee=5,taxnum=1,taxden=4,initstd=30,inittok=30,feenu
 CS_GEN_CFG = CS_BASE + ",initstd=20,inittok=20,feenum=3,feeden=10,uninum=2,uniden=10"
 
 CS_RND = T(
-    [dict(n=10, len=30, procs=5, cfg=CS_CFG_A), dict(n=10, len=30, procs=5, cfg=CS_CFG_B),
-     dict(n=10, len=30, procs=3, cfg=CS_CFG_C)],
+    [dict(n=10, len=40, procs=5, cfg=CS_CFG_A), dict(n=10, len=40, procs=5, cfg=CS_CFG_B),
+     dict(n=10, len=40, procs=3, cfg=CS_CFG_C)],
     [dict(n=60, len=40, procs=6, cfg=CS_CFG_A), dict(n=60, len=40, procs=6, cfg=CS_CFG_B),
      dict(n=60, len=40, procs=4, cfg=CS_CFG_C)])
-CS_GEN = T([dict(cfg="GEN_Coinswap.cfg", num=12, depth=14, seeds=10)],
+CS_GEN = T([dict(cfg="GEN_Coinswap.cfg", num=10, depth=13, seeds=8)],
            [dict(cfg="GEN_Coinswap.cfg", num=50, depth=16, seeds=14)])
 CS_SCN = [dict(file="scenarios/coinswap_F1.ndjson", cfg=CS_CFG_A + ",epilogue=0"),
           dict(file="scenarios/coinswap_zero_reserve.ndjson", cfg=CS_CFG_A + ",epilogue=0")]
